@@ -48,7 +48,7 @@ structure OpExt (r r' : Reg) (incoming : List Nat) : Prop where
   newids : ∀ id ps, RCall.requestTable id ps ∈ r'.calls → r.nextId ≤ id
 
 theorem WF.beginOp {r : Reg} (hwf : WF r) (ch : List Nat) : WF (r.beginOp ch) :=
-  ⟨hwf.min2, hwf.minmax, hwf.tc, hwf.nodup, hwf.idlt, hwf.bnd⟩
+  ⟨hwf.maxpos, hwf.tc, hwf.nodup, hwf.idlt, hwf.bnd⟩
 
 theorem RInv.beginOp {r : Reg} (h : RInv r) (ch : List Nat) : RInv (r.beginOp ch) :=
   ⟨h.wf.beginOp ch, h.q, h.cnt, h.pend⟩
@@ -82,7 +82,7 @@ theorem addPlayers_spec (r : Reg) (ps ch : List Nat) (h : RInv r) (hs : r.status
   simp only at hb ⊢
   generalize hr1 : ({ r.beginOp ch with playerCount := (r.beginOp ch).playerCount + ps.length } : Reg) = r1 at hb ⊢
   have hwf1 : WF r1 := by
-    rw [← hr1]; exact ⟨h.wf.min2, h.wf.minmax, h.wf.tc, h.wf.nodup, h.wf.idlt, h.wf.bnd⟩
+    rw [← hr1]; exact ⟨h.wf.maxpos, h.wf.tc, h.wf.nodup, h.wf.idlt, h.wf.bnd⟩
   obtain ⟨hwf2, hext2, hq2, hbad2, hcalls2, _, _⟩ := updateTableRequirements_spec r1 hwf1 (r1.queue ++ ps)
   generalize hr2 : r1.updateTableRequirements = r2 at *
   obtain ⟨hwf3, hext3, hq3, hp3⟩ := enterWaitingQueue_spec r2 ps hwf2 hb
@@ -143,7 +143,7 @@ theorem setStatus_spec (r : Reg) (st : RStatus) (ch : List Nat) (h : RInv r)
       · intro h2; exact hne' (h1.trans h2.symm)
     generalize hr1 : ({ r.beginOp ch with status := st } : Reg) = r1 at hb ⊢
     have hwf1 : WF r1 := by
-      rw [← hr1]; exact ⟨h.wf.min2, h.wf.minmax, h.wf.tc, h.wf.nodup, h.wf.idlt, h.wf.bnd⟩
+      rw [← hr1]; exact ⟨h.wf.maxpos, h.wf.tc, h.wf.nodup, h.wf.idlt, h.wf.bnd⟩
     have hr1q : r1.queue = r.queue := by rw [← hr1]; rfl
     have hr1t : r1.tables = r.tables := by rw [← hr1]; rfl
     have hr1s : r1.status = st := by rw [← hr1]
@@ -199,20 +199,20 @@ theorem drain_noop (r : Reg) (_hwf : WF r) (h0 : r.tableCount = 0) (hlt : r.play
     simp only [h0, if_true, hlt]
   · rw [if_neg (by omega)]
 
-theorem allocateLoop_min (fuel : Nat) : ∀ (wl reqT : Int) (r : Reg), WF r →
+theorem allocateLoop_min (fuel : Nat) : ∀ (wl reqT : Int) (r : Reg), WF r → r.min ≤ r.max →
     (r.tableCount < reqT → wl ≤ r.queue.length) →
     ∃ cs, (allocateLoop fuel wl reqT r).calls = r.calls ++ cs ∧
       ∀ id ps, RCall.requestTable id ps ∈ cs → r.min ≤ ps.length := by
   induction fuel with
-  | zero => intro wl reqT r _ _; exact ⟨[], by simp [allocateLoop], by simp⟩
+  | zero => intro wl reqT r _ _ _; exact ⟨[], by simp [allocateLoop], by simp⟩
   | succ n ih =>
-    intro wl reqT r hwf hq
+    intro wl reqT r hwf hmm hq
     rw [allocateLoop_succ]
     split
     · rename_i hcond
       have hwlq := hq hcond.2
       have hb := pullCount_bounds r wl
-      have hcap : (r.min : Int) ≤ r.capWl wl := capWl_ge r wl _ hcond.1 (by have := hwf.minmax; omega)
+      have hcap : (r.min : Int) ≤ r.capWl wl := capWl_ge r wl _ hcond.1 (by omega)
       have hcapq : r.capWl wl ≤ r.queue.length := by unfold capWl; split <;> omega
       have hpq : r.pullCount wl ≤ r.queue.length := by unfold pullCount; split <;> omega
       split
@@ -230,7 +230,7 @@ theorem allocateLoop_min (fuel : Nat) : ∀ (wl reqT : Int) (r : Reg), WF r →
         · rename_i hexp
           obtain ⟨cs, hc1, hc2⟩ := ih
             (((r.openTable (r.capWl wl) (r.pullCount wl).toNat).queue.length : Int) /
-              (reqT - (r.openTable (r.capWl wl) (r.pullCount wl).toNat).tableCount)) reqT _ hwf2
+              (reqT - (r.openTable (r.capWl wl) (r.pullCount wl).toNat).tableCount)) reqT _ hwf2 hmm
             (fun _ => floor_le_self (by omega))
           refine ⟨RCall.requestTable r.nextId (r.queue.take (r.pullCount wl).toNat) :: cs, ?_, ?_⟩
           · rw [hc1]; simp [openTable]
@@ -245,6 +245,7 @@ theorem allocateTables_min (r : Reg) (hwf : WF r) (h0 : r.tableCount = 0)
     (hcnt : r.playerCount = r.queue.length) :
     ∃ cs, r.allocateTables.calls = r.calls ++ cs ∧
       ∀ id ps, RCall.requestTable id ps ∈ cs → r.min ≤ ps.length := by
+  have hmaxpos : (0 : Int) < r.max := by have := hwf.maxpos; omega
   unfold allocateTables
   simp only [h0, if_true]
   have hwlle : (if r.requiredTables > 0 then r.playerCount / r.requiredTables else 0) ≤ (r.queue.length : Int) := by
@@ -252,18 +253,30 @@ theorem allocateTables_min (r : Reg) (hwf : WF r) (h0 : r.tableCount = 0)
     · have : r.playerCount / r.requiredTables ≤ r.playerCount := floor_le_self (by omega)
       omega
     · omega
-  generalize (if r.requiredTables > 0 then r.playerCount / r.requiredTables else 0) = wl at hwlle ⊢
-  split
-  · exact ⟨[], by simp, by simp⟩
+  have hwlmax : (if r.requiredTables > 0 then r.playerCount / r.requiredTables else 0) ≤ (r.max : Int) := by
+    split
+    · rename_i hpos
+      exact floor_le_max hpos (le_ceilDiv_mul r.playerCount r.max hwf.maxpos)
+    · omega
+  generalize (if r.requiredTables > 0 then r.playerCount / r.requiredTables else 0) = wl at hwlle hwlmax ⊢
+  by_cases hmm : r.min ≤ r.max
   · split
-    · exact allocateLoop_min _ _ _ r hwf (fun _ => hwlle)
-    · apply allocateLoop_min _ _ _ r hwf
-      intro hlt
-      rw [h0] at hlt
-      have hmaxpos : (0 : Int) < r.max := by have := hwf.min2; have := hwf.minmax; omega
-      have : (1 : Int) ≤ r.playerCount / (r.max : Int) := by omega
-      rw [Int.le_ediv_iff_mul_le hmaxpos] at this
-      omega
+    · exact ⟨[], by simp, by simp⟩
+    · split
+      · exact allocateLoop_min _ _ _ r hwf hmm (fun _ => hwlle)
+      · apply allocateLoop_min _ _ _ r hwf hmm
+        intro hlt
+        rw [h0] at hlt
+        have : (1 : Int) ≤ r.playerCount / (r.max : Int) := by omega
+        rw [Int.le_ediv_iff_mul_le hmaxpos] at this
+        omega
+  · -- `min > max`: the water level never reaches `min`, no table is opened at all
+    split
+    · exact ⟨[], by simp, by simp⟩
+    · split
+      · omega
+      · rw [allocateLoop_succ, if_neg (by omega)]
+        exact ⟨[], by simp, by simp⟩
 
 theorem drain_min (r : Reg) (hwf : WF r) (h0 : r.tableCount = 0) (hcnt : r.playerCount = r.queue.length) :
     ∃ cs, r.drainWaitingQueue.calls = r.calls ++ cs ∧
@@ -287,7 +300,7 @@ theorem addPlayers_initial (r : Reg) (ps ch : List Nat) (h : RInv r) (h0 : r.tab
   · simp only
     generalize hr1 : ({ r.beginOp ch with playerCount := (r.beginOp ch).playerCount + ps.length } : Reg) = r1
     have hwf1 : WF r1 := by
-      rw [← hr1]; exact ⟨h.wf.min2, h.wf.minmax, h.wf.tc, h.wf.nodup, h.wf.idlt, h.wf.bnd⟩
+      rw [← hr1]; exact ⟨h.wf.maxpos, h.wf.tc, h.wf.nodup, h.wf.idlt, h.wf.bnd⟩
     obtain ⟨hwf2, hext2, hq2, _, hcalls2, _, htc2⟩ := updateTableRequirements_spec r1 hwf1 []
     have hr1t : r1.tables = [] := by rw [← hr1]; exact ht0
     have hr2t : r1.updateTableRequirements.tables = [] := by
@@ -327,7 +340,7 @@ theorem setStatus_initial (r : Reg) (st : RStatus) (ch : List Nat) (h : RInv r) 
   · split
     · generalize hr1 : ({ r.beginOp ch with status := st } : Reg) = r1
       have hwf1 : WF r1 := by
-        rw [← hr1]; exact ⟨h.wf.min2, h.wf.minmax, h.wf.tc, h.wf.nodup, h.wf.idlt, h.wf.bnd⟩
+        rw [← hr1]; exact ⟨h.wf.maxpos, h.wf.tc, h.wf.nodup, h.wf.idlt, h.wf.bnd⟩
       obtain ⟨cs, e1, e2⟩ := drain_min r1 hwf1 (by rw [← hr1]; exact h0)
         (by rw [← hr1]; show r.playerCount = (r.queue.length : Int); rw [h.cnt, ht0, sumCount_nil]; omega)
       intro id qs hm
@@ -371,7 +384,7 @@ theorem addPlayers_before_min (r : Reg) (ps ch : List Nat) (h : RInv r) (h0 : r.
   · simp only
     generalize hr1 : ({ r.beginOp ch with playerCount := (r.beginOp ch).playerCount + ps.length } : Reg) = r1
     have hwf1 : WF r1 := by
-      rw [← hr1]; exact ⟨h.wf.min2, h.wf.minmax, h.wf.tc, h.wf.nodup, h.wf.idlt, h.wf.bnd⟩
+      rw [← hr1]; exact ⟨h.wf.maxpos, h.wf.tc, h.wf.nodup, h.wf.idlt, h.wf.bnd⟩
     obtain ⟨hwf2, hext2, hq2, _, hcalls2, _, htc2⟩ := updateTableRequirements_spec r1 hwf1 []
     have hr1t : r1.tables = [] := by rw [← hr1]; exact ht0
     have hr2t : r1.updateTableRequirements.tables = [] := by
@@ -401,7 +414,7 @@ theorem setStatus_before_min (r : Reg) (st : RStatus) (ch : List Nat) (h : RInv 
   · split
     · generalize hr1 : ({ r.beginOp ch with status := st } : Reg) = r1
       have hwf1 : WF r1 := by
-        rw [← hr1]; exact ⟨h.wf.min2, h.wf.minmax, h.wf.tc, h.wf.nodup, h.wf.idlt, h.wf.bnd⟩
+        rw [← hr1]; exact ⟨h.wf.maxpos, h.wf.tc, h.wf.nodup, h.wf.idlt, h.wf.bnd⟩
       rw [drain_noop r1 hwf1 (by rw [← hr1]; exact h0) (by rw [← hr1]; exact hlt), ← hr1]
       exact ⟨ht0, rfl⟩
     · exact ⟨ht0, rfl⟩
